@@ -229,7 +229,7 @@ def boundary_trees(rng):
         {"a": [1, [2]]}, {"a": [[1, None], [3]]}, {"a": [{}]}, {"a": ()}, {"a": [[], []]}, {"a": [[]]},
         {"a": np.bool_(True), "b": [np.bool_(False), 2]}, {"a": np.longdouble(1) / 3}, {"plot": np.bool_(False), "x": [np.bool_(True)]},
         {"a": {"b/c": None, "d": np.bool_(True)}}, {"a": ["__none__", "x"], "b": "__none__"},
-        {"a": [1.0, None], 1: 2}, {1: 2, "a": [1.0, None]}, {"a": {"b": [[1], [2, 3]]}, "a/b": 1},
+        {"a": [1.0, None], 1: 2}, {1: 2, "a": [1.0, None]}, {1: 0, "1": 5}, {"a": {"true": 1, True: 2, "x": None}}, {"a": {"b": [[1], [2, 3]]}, "a/b": 1},
     ]
     extra = []
     for _ in range(40):
